@@ -160,6 +160,44 @@ func ruleORD1(w *World, r *Report) {
 
 // ---------- ORD-2 compaction order ----------
 
+// ruleORD2c: a compacted log supersedes the snapshot.
+func ruleORD2c(w *World, r *Report) {
+	r.Doc("ORD-2c", "log compaction writes a complete-state log without delete records, so an older snapshot must not survive it: after a successful AOF.ReplaceWith every path to a successful return of the compaction removes the snapshot file (or saves a new one)", 1)
+	replacePred := methodPred(w, "pkg/persistence", "LazyAOFWriter.ReplaceWith")
+	fis := w.funcsByRole("pkg/engine", replacePred)
+	if len(fis) == 0 {
+		r.Und("ORD-2c", "anchor:ReplaceWith-caller", "", "anchor lost: no function in pkg/engine calls LazyAOFWriter.ReplaceWith")
+		return
+	}
+	for _, fi := range fis {
+		fn := w.SSAFunc(fi.Obj)
+		where := shortName(fi.Obj)
+		retires := func(in ssa.Instruction) bool {
+			c, ok := in.(*ssa.Call)
+			if !ok {
+				return false
+			}
+			if o := calleeObj(&c.Call); o != nil && o.Pkg() != nil && o.Pkg().Path() == "os" && (o.Name() == "Remove" || o.Name() == "Rename") && len(c.Call.Args) > 0 && isFieldLoad(c.Call.Args[0], "snapPath") {
+				return true
+			}
+			return isModCall(in, "pkg/engine", "Engine.SaveSnapshot") || isModCall(in, "pkg/engine", "Engine.saveSnapshotLocked")
+		}
+		for _, rp := range findInstrs(fn, replacePred) {
+			c := rp.(*ssa.Call)
+			okRet := func(in ssa.Instruction) bool {
+				rt, ok := in.(*ssa.Return)
+				if !ok {
+					return false
+				}
+				n := len(rt.Results)
+				return n > 0 && isNilConst(retVal(rt, n-1))
+			}
+			found, wit := (pathQuery{fn: fn, target: okRet, avoid: retires, blocked: failureEdges(fn, c)}).find(posOf(rp))
+			r.Cond(!found, "ORD-2c", where+":snapshot-retired-after-ReplaceWith", w.Pos(rp.Pos()), "the superseded snapshot is removed (or replaced) before success is reported", where+" can report success after replacing the log with its compacted form while an older snapshot stays on disk: the next start loads that snapshot underneath a log that has no delete records, and every vector, key or index deleted since the snapshot comes back", w.witness(wit)...)
+		}
+	}
+}
+
 func ruleORD2(w *World, r *Report) {
 	r.Doc("ORD-2", "compaction protocol: BeginSnapshotMode < state capture < successful temp Flush < AOF.ReplaceWith < EndSnapshotMode < re-append+Sync; AOFWriter.ReplaceWith: flush < close < rename < reopen", 9)
 	replacePred := methodPred(w, "pkg/persistence", "LazyAOFWriter.ReplaceWith")
